@@ -303,9 +303,9 @@ theorem serverHello_round (env : Env) (tid : Nat) (root0 root key vk : Bytes) (s
   have hv := hver _ _ hsig
   simp only [List.append_assoc] at hv
   rcases hvk with ⟨hsk, rfl⟩ | hsk
-  · simp only [R.res_bind, R.res_tick, R.res_lift, ok_bind, h1, asKeyBytes, hpr, h2, h3, hsk, hv, h4, hpk, h5, h6]
+  · simp only [R.res_bind, R.res_tick, R.res_lift, R.res_reparse, ok_bind, h1, asKeyBytes, hpr, h2, h3, hsk, hv, h4, hpk, h5, h6]
     simp
-  · simp only [R.res_bind, R.res_tick, R.res_lift, ok_bind, h1, asKeyBytes, hpr, h2, h3, hsk, hv, h4, hpk, h5, h6]
+  · simp only [R.res_bind, R.res_tick, R.res_lift, R.res_reparse, ok_bind, h1, asKeyBytes, hpr, h2, h3, hsk, hv, h4, hpk, h5, h6]
     simp
 
 end Mpgs.Serial
